@@ -503,6 +503,9 @@ func (t *treeListIterator) Next() bool {
 }
 
 func (t *treeListIterator) start() bool {
+	// When restarting from a deleted node, the list may since have become
+	// empty, in which case we mustn't be left pointing at the deleted node.
+	t.node = nil
 	next := t.list.root
 	for next != nil {
 		t.node = next
